@@ -31,10 +31,10 @@ MANIFEST = {
 }
 
 PLAN = {
-    # tier: (mc configs [(cfg, timeout)], tlc scenarios, generated scenarios, done-race trees, stall deadline s)
-    "quick": ([("MC_Supervisor_live_quick.cfg", 600), ("MC_Supervisor_safety_quick.cfg", 600)], 12, 28, 40, 12),
-    "thorough": ([("MC_Supervisor_live_thorough.cfg", 1800), ("MC_Supervisor_safety4_thorough.cfg", 2400),
-                  ("MC_Supervisor_safety5_thorough.cfg", 3000)], 150, 450, 80, 15),
+    # tier: (mc configs [(cfg, timeout, share of the cores)], tlc scenarios, generated scenarios, done-race trees, stall deadline s)
+    "quick": ([("MC_Supervisor_live_quick.cfg", 600, 0.4), ("MC_Supervisor_safety_quick.cfg", 600, 0.6)], 12, 28, 40, 12),
+    "thorough": ([("MC_Supervisor_live_thorough.cfg", 2400, 0.2), ("MC_Supervisor_safety4_thorough.cfg", 2400, 0.25),
+                  ("MC_Supervisor_safety5_thorough.cfg", 3600, 0.55)], 150, 450, 80, 15),
 }
 
 ASSUME = [
@@ -70,6 +70,14 @@ def classify_reject(lines, idx):
     dm = None if killed else _done_member_cancelled(ln.get("s"))
     if dm:
         return "reject/done-member-cancelled"
+    # a non-root service signalled Done and an ancestor was restarted afterwards: the death notice of the completed
+    # runnable may have been overtaken by the restart (same root cause as crash/processDied/nodeByDN-could-not-find)
+    for i, x in enumerate(lines[:idx]):
+        if x["ev"] == "Done" and "." in x["a"]["dn"]:
+            d = x["a"]["dn"]
+            ancs = {d.rsplit(".", k)[0] for k in range(1, d.count(".") + 1)}
+            if any(y["ev"] == "Enter" and y["a"]["dn"] in ancs and y["a"].get("inst", 1) > 1 for y in lines[i:idx + 1]):
+                return "reject/done-notice-vs-ancestor-restart"
     dn = ln.get("a", {}).get("dn", "")
     return "reject/%s/depth%d%s%s" % (ln["ev"], _depth(dn), "/" + ln["a"]["kind"] if "kind" in ln.get("a", {}) else "", "/after-kill" if killed else "")
 
@@ -101,6 +109,33 @@ def parse_crash(out):
         norm = re.sub(r"0x[0-9a-f]+|\d+", "N", norm)
         sig = "crash/%s/%s" % (frames[0] if frames else "unknown", re.sub(r"[^A-Za-z]+", "-", norm)[:80].strip("-"))
     return sig, tid, out[m.start():m.start() + 2500]
+
+
+def parse_hang(out):
+    """The watchdog of the harness saw no logged step of any tree for stall + 10 s: the supervisor (its lock) is wedged."""
+    m = re.search(r"VERIF-SUPERVISOR-HUNG dump=(\S+)", out)
+    if not m:
+        return None
+    dump = ""
+    try:
+        dump = open(m.group(1)).read()
+    except OSError:
+        pass
+    where = "unknown"
+    for g in dump.split("\n\n"):
+        # a goroutine of the package itself (not of the harness) that waits for the supervisor's lock
+        ls = g.split("\n")
+        if not re.match(r"goroutine \d+ \[sync\.(RW)?Mutex\.R?Lock", ls[0]):
+            continue
+        for i, l in enumerate(ls[:-1]):
+            m2 = re.search(r"pkg/supervisor\.(?:\(\*\w+\)\.)?(\w+)\(", l)
+            if m2 and not l.startswith("\t"):
+                if re.search(r"/supervisor\w*\.go:", ls[i + 1]):
+                    where = "lock-never-released/%s" % m2.group(1)
+                break
+        if where != "unknown":
+            break
+    return "hang/" + where, dump[:20000]
 
 
 def parse_races(out):
@@ -171,6 +206,7 @@ def run(prop, tier, replay=None):
 
     mc_states = mc_trans = 0
     mc_info = []
+    model_events = Counter()
     batches = []
     if replay:
         rp = json.load(open(replay))
@@ -183,9 +219,9 @@ def run(prop, tier, replay=None):
         # 1. the design (the configs run side by side, and beside the harness build)
         import concurrent.futures as cf
         pool = cf.ThreadPoolExecutor(max_workers=len(mcs) + 1)
-        per = max(2, min(vlib.NCPU, 16) // max(1, len(mcs)))
-        futs = [(cfg, pool.submit(vlib.tlc_must_pass, vlib.scratch("%s-mc%d" % (prop, i)), "MC_Supervisor", cfg, workers=per, timeout=to, heap="12g"))
-                for i, (cfg, to) in enumerate(mcs)]
+        futs = [(cfg, pool.submit(vlib.tlc_must_pass, vlib.scratch("%s-mc%d" % (prop, i)), "MC_Supervisor", cfg,
+                             workers=max(2, int(min(vlib.NCPU, 16) * share)), timeout=to, heap="12g"))
+                for i, (cfg, to, share) in enumerate(mcs)]
         fbuild = pool.submit(fs.build_harness, work)
         for cfg, f in futs:
             r = f.result()
@@ -194,7 +230,13 @@ def run(prop, tier, replay=None):
             mc_info.append({"cfg": cfg, "distinct": r["distinct"], "generated": r["generated"], "depth": r["depth"], "wall_s": round(r["wall_s"], 1)})
             print("TLC %s: %d distinct states, %d transitions, depth %d, %.0fs" % (cfg, r["distinct"], r["generated"], r["depth"], r["wall_s"]))
         # 2. scenarios
-        scs = fs.fixed_scenarios() + fs.orphan_scenarios() + fs.tlc_scenarios(work, ntlc, seed) + fs.gen_scenarios(seed, ngen)
+        tlc_scs = fs.tlc_scenarios(work, ntlc, seed)
+        # vacuity guard for the model: the simulated behaviours exercise every kind of service step, restarts and the kill
+        model_events = Counter(x for sc in tlc_scs for x in sc.pop("model_events"))
+        for need in ("Enter", "Restart", "Healthy", "Done", "SawCancel", "Exit:err", "Exit:nil", "Exit:panic", "Exit:ctxErr", "Kill"):
+            if model_events[need] == 0:
+                raise vlib.Broken("vacuous model simulation: no %s in %d TLC behaviours" % (need, len(tlc_scs)))
+        scs = fs.fixed_scenarios() + fs.orphan_scenarios() + tlc_scs + fs.gen_scenarios(seed, ngen)
         batches = [("main", [s for s in scs if not fs.risky(s)]), ("risky", [s for s in scs if fs.risky(s)]),
                    ("race", fs.done_race_scenarios(nrace))]
     nid = 0
@@ -234,6 +276,11 @@ def run(prop, tier, replay=None):
             if completed:
                 todo = []
                 break
+            hg = parse_hang(out)
+            if hg:
+                verdict.add(hg[0], {"batch": name, "goroutine_dump": hg[1], "scenarios": [x["src"] for x in todo][:20]})
+                crashes += 1
+                break
             cr = parse_crash(out)
             if not cr:
                 raise vlib.Broken("supervisor harness did not complete and did not crash recognisably (batch %s):\n%s" % (name, out[-4000:]))
@@ -244,9 +291,6 @@ def run(prop, tier, replay=None):
             todo = [s for s in todo if s["id"] not in ended and s["id"] != tid]
             if tid is None:
                 break
-    bad = [ln for ln in lines if ln["ev"] == "HarnessError"]
-    if bad:
-        raise vlib.Broken("harness error: %s" % bad[0])
     by_tree = {}
     for ln in sorted(lines, key=lambda x: (x["t"], x["n"])):
         by_tree.setdefault(ln["t"], []).append(ln)
@@ -258,6 +302,10 @@ def run(prop, tier, replay=None):
         for ln in ls:
             if ln["ev"] == "Double":
                 verdict.add("double-instance/depth%d" % _depth(ln["a"]["dn"]), {"line": ln, "scenario": allsc.get(t)})
+            if ln["ev"] == "HarnessError":      # RunGroup refused to start the children of a freshly entered runnable
+                verdict.add("api-error/RunGroup/" + re.sub(r"[^A-Za-z]+", "-", ln["a"].get("err", ""))[:60], {"line": ln, "scenario": allsc.get(t)})
+            if ln["ev"] == "Runaway":
+                verdict.add("runaway/restart-loop", {"line": ln, "scenario": allsc.get(t)})
             if ln["ev"] == "Stall":
                 dump = ""
                 try:
@@ -308,6 +356,12 @@ def run(prop, tier, replay=None):
     anysc = next(iter(allsc.values()))
     t_ok = [t for t in by_tree if t not in rejected and any(ln["ev"] == "End" for ln in by_tree[t])]
     sample_trace = [{k: ln[k] for k in ("n", "ev", "a", "s")} for ln in (by_tree[t_ok[0]][:12] if t_ok else [])]
+    nneg = 0
+    if not replay:
+        cands = [t for t in t_ok if sum(1 for ln in by_tree[t] if ln["ev"] == "Enter") >= 4 and len(by_tree[t]) < 120]
+        if not cands:
+            raise vlib.Broken("no accepted trace with a restart for the negative self-test")
+        nneg = fs.selftest(work, by_tree[cands[0]])
     cov = {
         "states": mc_states if not replay else max(r["distinct"], 1),
         "transitions": mc_trans if not replay else max(r["generated"], 1),
@@ -318,16 +372,16 @@ def run(prop, tier, replay=None):
         "rule": "one evaluation = one logged service-side step of a real tree (with its snapshot of the supervisor's tree) that TLC explained "
                 "with Supervisor.tla; distinct = distinct (step kind, node depth, node state and context liveness before the step, exit kind, "
                 "instance number capped at 3, parent state/liveness, sibling states) tuples; Reset/Settled/End lines are not counted",
-        "mc_configs": mc_info, "trace_spec_states": r["distinct"],
+        "mc_configs": mc_info, "model_simulation_events": dict(model_events) if not replay else {}, "trace_spec_states": r["distinct"],
         "trees_run": len(by_tree), "trees_rejected": len(rejected), "process_crashes": crashes,
         "logged_steps": dict(acts), "effects_observed": dict(eff), "distinct_tree_shapes_run": len(shapes_seen),
         "script_endings": dict(kinds), "scenario_sources": dict(Counter(allsc[t]["src"].split(":")[0] for t in by_tree if t in allsc)),
-        "stall_deadline_s": stall_s, "race_detector": True,
+        "stall_deadline_s": stall_s, "negative_selftests_rejected": nneg, "race_detector": True,
         "known_findings_matched": getattr(verdict, "n_known", 0),
         "exhaustive": False,
     }
     for need in ("restart", "cancel-observed-before-kill", "exit-ctxErr"):
-        if not replay and eff.get(need, 0) == 0:
+        if not replay and rc == 0 and eff.get(need, 0) == 0:
             raise vlib.Broken("vacuous run: effect %r never observed" % need)
     vlib.write_evidence(prop, tier, "model_checking", cov, ASSUME, time.time() - t0, getattr(verdict, "n_unknown", 0))
     return rc
